@@ -365,6 +365,8 @@ private:
     double m_loopStartTime;
     //! Global loop end time
     double m_loopEndTime;
+    //! No valid loopStart marker: the global loop begins together with the song
+    bool m_loopStartAtSongBegin;
 
     //! Pre-processed track data storage
     std::vector<MidiTrackQueue > m_trackData;
